@@ -270,6 +270,12 @@ class MaskCombinator(Generic[R], GenerativeFunction[Mask[R]]):
         args: tuple[Any, ...],
     ) -> tuple[Score, Mask[R]]:
         check, inner_args = args[0], args[1:]
+        if FlagOp.concrete_false(check):
+            # A concretely masked-off call has no choices (its trace's choice map
+            # is empty), so the inner function cannot be assessed against
+            # `sample`; it contributes nothing and returns an invalid mask.
+            retval = self.gen_fn.__abstract_call__(*inner_args)
+            return jnp.zeros(()), Mask(retval, check)
         score, retval = self.gen_fn.assess(sample, inner_args)
         return (
             check * score,
